@@ -92,7 +92,12 @@ def main():
     progs = [p for n in range(1, max_len + 1) for p in itertools.product(names, repeat=n) if any(OPS[o][1] in ("linear", "sdpa") for o in p)]
     if a.tier != "quick":
         progs = progs[:: max(1, len(progs) // 400)]
-    fmts = [(FPFormat(4, 3, "nearest"), FPFormat(5, 2, "nearest")), (FPFormat(8, 23, "nearest"), FPFormat(8, 23))]
+    # the third pair uses EQUAL lossy formats in both directions (seeded change C15-7: per-format caches shared by
+    # the two straight-through functions); the reference side always works on FRESH format objects
+    fmts = [(FPFormat(4, 3, "nearest"), FPFormat(5, 2, "nearest")), (FPFormat(8, 23, "nearest"), FPFormat(8, 23)), (FPFormat(5, 2, "nearest"), FPFormat(5, 2, "nearest"))]
+
+    def fresh(f):
+        return FPFormat(f.exponent_bits, f.mantissa_bits, f.rounding, f.srbits)
     viol, n = [], 0
     d = 4
     for prog in progs:
@@ -106,7 +111,7 @@ def main():
                 (y1,) = new(x1)
                 gx1, gw1, gb1 = torch.autograd.grad(y1.sum(), [x1, root.w, root.b], allow_unused=True)
                 x2 = x1.detach().clone().requires_grad_(True)
-                y2 = reference(prog, root, x2, fwd, bwd)
+                y2 = reference(prog, root, x2, fresh(fwd), fresh(bwd))
                 gx2, gw2, gb2 = torch.autograd.grad(y2.sum(), [x2, root.w, root.b], allow_unused=True)
                 same = torch.equal(y1, y2) and all((p is None and q is None) or (p is not None and q is not None and torch.equal(p, q)) for p, q in ((gx1, gx2), (gw1, gw2), (gb1, gb2)))
                 if fwd.mantissa_bits == 23:
@@ -149,7 +154,7 @@ def main():
                 y1 = q(x1)
                 g1 = torch.autograd.grad(y1.sum(), [x1] + list(q.parameters()))
                 x2 = x1.detach().clone().requires_grad_(True)
-                y2 = ref(m, x2, fwd, bwd)
+                y2 = ref(m, x2, fresh(fwd), fresh(bwd))
                 g2 = torch.autograd.grad(y2.sum(), [x2] + list(m.parameters()))
                 same = torch.equal(y1, y2) and all(torch.equal(p_, q_) for p_, q_ in zip(g1, g2))
                 if fwd.mantissa_bits == 23:
@@ -158,7 +163,7 @@ def main():
                     viol.append({"name": f"C15:bounded:simulate_format_through_TorchDynamo_equals_hand_inserted_quantisation[root={rname}]", "formats": [str(fwd), str(bwd)], "max_abs_diff": float((y1 - y2).abs().max()), "equals_unquantised": bool(torch.equal(y1, m(x1))), "reproduced": True})
             except Exception as e:
                 viol.append({"name": f"C15:bounded:simulate_format_raises[root={rname}]", "error": f"{type(e).__name__}: {e}"[:200], "reproduced": True})
-    print(json.dumps({"name": "c15-fx-graphs", "kind": "BOUNDED stand-in (hand-built fx graphs, real backend vs hand-inserted quantisation); not counted as proved", "ok": not viol, "obligations": 0, "discharged": 0, "evaluations": n, "bound": f"all programs of <= {max_len} call nodes over {names} that contain a linear/attention op ({len(progs)} programs) x 2 format pairs", "violations": viol[:5]}))
+    print(json.dumps({"name": "c15-fx-graphs", "kind": "BOUNDED stand-in (hand-built fx graphs, real backend vs hand-inserted quantisation); not counted as proved", "ok": not viol, "obligations": 0, "discharged": 0, "evaluations": n, "bound": f"all programs of <= {max_len} call nodes over {names} that contain a linear/attention op ({len(progs)} programs) x 3 format pairs (incl. equal lossy formats in both directions)", "violations": viol[:5]}))
 
 
 if __name__ == "__main__":
